@@ -500,7 +500,7 @@ def assemble(prop, tier, seed, spec, quals, lem, results, t_start, early_standin
                            "cvc5_rechecked": sum(1 for o in obs if o.get("cvc5")),
                            "cvc5_agree": sum(1 for o in obs if o.get("cvc5") == "unsat")},
             "solver_time_s": round(sum(o["time_s"] for o in obs), 2),
-            "ladder": {k: sum(1 for o in discharged if (o.get("tried") or ["full"])[-1] == k) for k in ("full", "quantifier-free-hyps", "sliced", "full-long", "seed7")},
+            "ladder": {k: sum(1 for o in discharged if (o.get("tried") or ["full"])[-1] == k) for k in ("full", "quantifier-free-hyps", "sliced", "sliced-seed11", "sliced-seed23", "full-long", "seed7")},
             "samples": [dict(name=o["name"], verdict=o["verdict"], goal_head=o.get("smt_head", "")) for o in obs[:4]],
             "vacuity": {"hyps_checked": sum(1 for o in obs if "hyps_sat" in o), "hyps_sat": sum(1 for o in obs if o.get("hyps_sat") in ("sat", "qf-sat")),
                         "hyps_unknown": sum(1 for o in obs if o.get("hyps_sat") == "unknown")},
